@@ -55,7 +55,9 @@ type c04key struct {
 
 func (k c04key) String() string { return fmt.Sprintf("%s/%d", k.prefix, k.id) }
 
-var c04keys = []c04key{{"s", 1}, {"s", 2}, {"t", 1}}
+// same session / other id, other session / same id, and a pair (s,11) vs (s1,1) whose session text and identifier digits
+// run together into the same characters: the queue must keep all three apart whatever it derives its key from
+var c04keys = []c04key{{"s", 1}, {"s", 11}, {"s1", 1}}
 
 type c04op struct {
 	kind string // ins, ack, wrong, unk, sweep
